@@ -174,3 +174,13 @@ Fixpoint predict_ops (v : variant) (c : tcase) (s : state) (ops : list top)
      end) ++ predict_ops v c s' ops'
   end.
 Definition predict (v : variant) (c : tcase) := predict_ops v c (init_state (tc_n c)) (tc_ops c).
+
+(** the C18_main_only part of the executable spec alone: what a successful run delivered are ids of the main dataset *)
+Fixpoint spec_main_ops (c : tcase) (h : hub) (ops : list top) : bool :=
+  match ops with
+  | [] => true
+  | TW k vs :: ops' => spec_main_ops c (append_hub h k vs) ops'
+  | TRun r :: ops' => (negb (tr_ok r) || subsetN (tr_emitted r) (map v_id (feed_of h (tc_main c))))
+                      && spec_main_ops c h ops'
+  end.
+Definition spec_main_only (c : tcase) : bool := spec_main_ops c (s_hub (init_state (tc_n c))) (tc_ops c).
